@@ -166,6 +166,22 @@ local macro "pm_bind" : tactic => `(tactic| first
 
 variable {fuel : Nat}
 
+theorem hasValue_of {e : Expr} (he : PT.expr e = true) (hc1 : PT.callArity1 e = true)
+    (hchk : ¬((Expr.valueType e).dt == .unknown ||
+      ((Expr.valueType e).dt == .multiple && !(match e with | .call _ _ _ | .app _ _ _ => true | _ => false))) = true) :
+    PT.hasValue e = true := by
+  cases e with
+  | call n rets args =>
+    simp only [PT.callArity1, beq_iff_eq] at hc1
+    simp only [PT.expr, Bool.and_eq_true] at he
+    match rets, hc1, he.2 with
+    | [t], _, hb =>
+      simp only [List.all_cons, List.all_nil, Bool.and_true] at hb
+      obtain ⟨dt, sl⟩ := t
+      cases dt <;> simp_all [PT.hasValue, PT.basic, Expr.valueType, fnValueType, PT.isApp]
+  | app n args nx => simp [PT.hasValue, Expr.valueType, PT.isApp]
+  | _ => simp_all [PT.hasValue, PT.isApp]
+
 theorem values_succ (ih : ExprIH fuel) (ctx : Ctx) (first : Bool) (hc : CtxOK ctx) :
     Post (evalValues (fuel + 1) ctx first) (valsP first) := by
   unfold evalValues
@@ -174,35 +190,50 @@ theorem values_succ (ih : ExprIH fuel) (ctx : Ctx) (first : Bool) (hc : CtxOK ct
   dsimp only
   pm_if
   · exact Post.err
+  rename_i h0
   pm_if
   · exact Post.err
+  rename_i hfirst
   pm_if
-  · refine Post.pure' ?_
-    refine ⟨by simp, ?_⟩
+  · exact Post.err
+  rename_i hchk
+  -- the shape facts about `e`
+  have shape : (PT.callArity1 e = true ∧ PT.hasValue e = true) ∨
+      (∃ n rets args, e = .call n rets args ∧ rets.length > 1) := by
     cases e with
     | call n rets args =>
-      simp_all [PT.vals1, PT.callArity1, exprP, isMulti]
-      have hne : rets.length ≠ 0 := by intro h; exact ‹¬rets = []› (List.length_eq_zero_iff.mp h)
-      by_cases h : rets.length = 1
-      · exact Or.inl h
-      · exact Or.inr ⟨‹1 < (rets.length : Int) → first = true› (by omega), n, rets, ⟨rfl, rfl⟩, by omega⟩
-    | _ => simp_all [PT.vals1, PT.callArity1, exprP, isMulti]
+      by_cases h1 : rets.length = 1
+      · exact Or.inl ⟨by simp [PT.callArity1, h1], hasValue_of he (by simp [PT.callArity1, h1]) hchk⟩
+      · refine Or.inr ⟨n, rets, args, rfl, ?_⟩
+        have : rets.length ≠ 0 := by
+          intro h; simp [h] at h0
+        omega
+    | _ => exact Or.inl ⟨rfl, hasValue_of he rfl hchk⟩
+  pm_if
+  · refine Post.pure' ⟨by simp, ?_⟩
+    rcases shape with ⟨h1, h2⟩ | ⟨n, rets, args, rfl, hr⟩
+    · have he' : PT.expr e = true := he
+      exact Or.inl (by simp [PT.vals1, he', h1, h2])
+    · refine Or.inr ⟨?_, _, rfl, he, n, rets, args, rfl, hr⟩
+      have : ((rets.length : Int) > 1) := by omega
+      simpa [this] using hfirst
   pm_bind; intro _
   pm_if
   · exact Post.err
+  rename_i hle
   pm_bind; intro rest hrest
-  refine Post.pure' ?_
-  refine ⟨by simp, Or.inl ?_⟩
+  refine Post.pure' ⟨by simp, Or.inl ?_⟩
   have hr : PT.vals1 rest = true := by
     rcases hrest.2 with h | h
     · exact h
     · simp at h
-  cases e with
-  | call n rets args =>
-    simp_all [PT.vals1, PT.callArity1, exprP]
-    have hne : rets.length ≠ 0 := by intro h; exact ‹¬rets = []› (List.length_eq_zero_iff.mp h)
+  rcases shape with ⟨h1, h2⟩ | ⟨n, rets, args, rfl, hr'⟩
+  · have he' : PT.expr e = true := he
+    simp [PT.vals1, he', h1, h2, hr]
+  · exfalso
+    apply hle
+    simp only [gt_iff_lt]
     omega
-  | _ => simp_all [PT.vals1, PT.callArity1, exprP]
 
 theorem allowedBinary_ok {vt : ValueType} {op : String} (h : (allowedBinary vt).contains op = true) :
     binaryAllowed vt op = true := by
@@ -335,7 +366,7 @@ theorem functionCall_succ (ih : ExprIH fuel) (ctx : Ctx) (hc : CtxOK ctx) :
     pm_bind; intro args ha
     pm_bind; intro _
     refine Post.pure' ?_
-    have := all_basic_known (hc.func hf).1
+    have := (hc.func hf).1
     simp_all [exprP, argsP, PT.expr]
 
 theorem appCall_succ (ih : ExprIH fuel) (ctx : Ctx) (hc : CtxOK ctx) :
